@@ -16,7 +16,12 @@ func VerifC11Flow() {
 	cl := s.NewClient(c, "t1", "c1", false)
 	cl.ParseConnect("t1", packets.Packet{ProtocolVersion: 5, Connect: packets.ConnectParams{ClientIdentifier: "c1", Keepalive: 60}, Properties: packets.Properties{ReceiveMaximum: uint16(R)}})
 	s.Clients.Add(cl)
-	sub := packets.Subscription{Filter: "a", Qos: 2}
+	// the subscription's QoS: with 0 every message goes out at QoS 0 and must use no flow-control quota at all
+	sq := byte(2)
+	if vParam("SUBQOS0", 0) == 1 {
+		sq = 0
+	}
+	sub := packets.Subscription{Filter: "a", Qos: sq}
 	s.Topics.Subscribe("c1", sub)
 	cl.State.Subscriptions.Add("a", sub)
 
@@ -29,6 +34,7 @@ func VerifC11Flow() {
 	nextClientID := uint16(100)
 	seen := 0
 	published, delivered := 0, 0
+	delivered0 := 0 // QoS 0 copies on the wire
 	steps := vParam("STEPS", 3)
 	for i := 0; i < steps; i++ {
 		switch vChoose(5 + vParam("EXTRA", 2)) {
@@ -101,6 +107,9 @@ func VerifC11Flow() {
 				}
 				outQos[p.ID] = (p.Flags >> 1) & 3
 			}
+			if p.Type == packets.Publish && (p.Flags>>1)&3 == 0 && p.Topic == "a" {
+				delivered0++
+			}
 			if p.Type == packets.Disconnect {
 				is93 := p.HasRsn && p.Reason == 0x93
 				// recorded class: an outbound QoS 2 flow in its PUBREC..PUBCOMP phase is charged to the receive quota
@@ -115,9 +124,13 @@ func VerifC11Flow() {
 			vAssert("kf-receive-maximum-exceeded-after-client-pubrel", len(outQos) <= R)
 		}
 		vAssert("unacknowledged-outbound-within-client-receive-maximum", len(outQos) <= R)
+		if sq == 0 && !cl.Closed() {
+			// QoS 0 deliveries are outside flow control: each is written at once, whatever was published before
+			vAssert("qos0-deliveries-are-never-held-back-by-receive-maximum", delivered0 == published)
+		}
 	}
 	// progress: with nothing outstanding, everything published so far has been sent
-	if len(outQos) == 0 && !cl.Closed() {
+	if len(outQos) == 0 && !cl.Closed() && sq > 0 {
 		vAssert("nothing-left-deferred-when-window-is-empty", delivered == published || cl.State.Inflight.Len() == 0 || delivered >= published)
 	}
 	vReach("end")
